@@ -27,6 +27,12 @@ type kGen struct {
 	suiteSeed *Term
 	pks       []*Term
 	processed map[string]bool
+	responses map[int]Value // dealer index -> *vss.Response this participant gave (recorded by ProcessDeal)
+}
+
+type kVerifier struct {
+	g   *kGen
+	idx int
 }
 
 func (in *Interp) invokeMethod(recv Value, t types.Type, name string, args ...Value) Value {
@@ -237,6 +243,10 @@ func registerKyberDKG(P *Program) {
 		inner[2] = d.status
 		inner[3] = in.mkBytes([]byte("sig"))
 		var ic Value = inner
+		if g.responses == nil {
+			g.responses = map[int]Value{}
+		}
+		g.responses[i] = Ptr(&ic) // kyber records the response in the dealer's verifier (Aggregator.responses)
 		outer := in.zero(rt).(Struct)
 		outer[0] = ts.BV(32, uint64(i))
 		outer[1] = Ptr(&ic)
@@ -262,8 +272,21 @@ func registerKyberDKG(P *Program) {
 		g := genOf(in, args[0])
 		m := NewMap()
 		for i := 0; i < g.n; i++ {
-			var cell Value = &Opaque{Kind: "kyber.verifier", Data: i}
+			var cell Value = &Opaque{Kind: "kyber.verifier", Data: &kVerifier{g: g, idx: i}}
 			in.mapSet(m, types.Typ[types.Uint32], in.ts.BV(32, uint64(i)), Ptr(&cell))
+		}
+		return m
+	})
+	// Verifier embeds *Aggregator; Responses() = the responses recorded for this dealer's deal, keyed by responder index
+	r("(*"+vss+".Aggregator).Responses", func(in *Interp, caller *frame, fn *ssa.Function, args []Value) Value {
+		p, _ := args[0].(Ptr)
+		if p == nil {
+			in.rtPanic("nil *vss.Aggregator")
+		}
+		v := (*p).(*Opaque).Data.(*kVerifier)
+		m := NewMap()
+		if r, ok := v.g.responses[v.idx]; ok {
+			in.mapSet(m, types.Typ[types.Uint32], in.ts.BV(32, uint64(v.g.own)), r)
 		}
 		return m
 	})
